@@ -927,6 +927,370 @@ class World:
     def op_configure(self, on):
         self._set_reordering(bool(on % 2))
 
+    # rejected calls (C17) ----------------------------------------------
+    BAD_KINDS = [
+        'var_undeclared', 'add_expr_undeclared', 'let_key_undeclared',
+        'let_rename_value_undeclared', 'let_compose_key_undeclared',
+        'quantify_undeclared', 'cube_undeclared', 'level_of_var_unknown',
+        'var_at_level_unknown', 'apply_unknown_node', 'ite_unknown_node',
+        'add_expr_unknown_ref', 'to_expr_unknown_node', 'count_unknown',
+        'let_unknown_node', 'quantify_unknown_node', 'foreign_function',
+        'unknown_operator', 'arity_unary_extra', 'arity_binary_missing',
+        'arity_binary_extra', 'arity_ternary_missing', 'syntax_error',
+        'add_var_conflict', 'reorder_partial_order', 'reorder_unknown_name',
+        'constructor_bad_levels', 'undeclare_used', 'undeclare_unknown',
+        'count_too_few', 'find_or_add_bad_level', 'find_or_add_bad_child',
+        'swap_non_adjacent', 'swap_same', 'swap_unknown', 'load_missing',
+        'load_wrong_extension', 'dump_wrong_extension', 'load_corrupt_pickle',
+        'load_corrupt_json', 'image_precondition', 'let_mixed_values',
+        'add_expr_deep_failure', 'cube_bad_after_progress',
+        'let_compose_late_failure',
+    ]
+
+    def op_bad(self, kind, a, b):
+        """One rejected call.  Whatever it raises must not be the internal
+        reordering signal; afterwards the normal invariants run (in
+        `step`), with the ledger unchanged."""
+        kinds = self.BAD_KINDS
+        name = kinds[kind % len(kinds)]
+        before = (len(self.b), sum(self.b._ref.values()))
+        fn = getattr(self, '_bad_' + name)
+        raised = None
+        try:
+            fn(a, b)
+        except self._bddmod._NeedsReordering:
+            raise Violation('bad.signal_escaped', dict(kind=name))
+        except Violation:
+            raise
+        except Exception as e:
+            raised = type(e).__name__
+        gc.collect()
+        if raised is None:
+            self.label(f'bad.not_rejected.{name}')
+        else:
+            self.label(f'bad.rejected.{name}')
+            self.label('rejected')
+            after = (len(self.b), sum(self.b._ref.values()))
+            if after != before:
+                self.label('bad.rejected_after_partial_work')
+                self.nontrivial.add('partial')
+        # the reordering switch is not part of the statement for failed
+        # calls (see DESIGN section 4): follow whatever it is now
+        self.reordering = self.b.configure()['reordering']
+        actual = [self.b._level_to_var.get(l)
+                  for l in range(len(self.b.vars))]
+        if sorted(map(str, actual)) == sorted(self.order):
+            # a rejected reorder may have swapped some levels before it
+            # failed: any valid order of the same names is acceptable
+            self.order = actual
+
+    def _u(self, i):
+        return self.pick(i)[0]
+
+    def _bad_var_undeclared(self, a, b):
+        self.api.var('zz_undeclared')
+
+    def _bad_add_expr_undeclared(self, a, b):
+        x = self.decl(a) or 'a'
+        self.api.add_expr(f'({x} /\\ ~ {x}) \\/ (zz_undeclared => {x})')
+
+    def _bad_let_key_undeclared(self, a, b):
+        self.api.let({'zz_undeclared': True}, self._u(a))
+
+    def _bad_let_rename_value_undeclared(self, a, b):
+        x = self.decl(a)
+        if x is None:
+            raise ValueError('no variable')
+        self.api.let({x: 'zz_undeclared'}, self._u(b))
+
+    def _bad_let_compose_key_undeclared(self, a, b):
+        self.api.let({'zz_undeclared': self._u(a)}, self._u(b))
+
+    def _bad_quantify_undeclared(self, a, b):
+        self.api.quantify(self._u(a), {'zz_undeclared'}, forall=bool(b % 2))
+
+    def _bad_cube_undeclared(self, a, b):
+        self.api.cube({'zz_undeclared': True})
+
+    def _bad_level_of_var_unknown(self, a, b):
+        self.api.level_of_var('zz_undeclared')
+
+    def _bad_var_at_level_unknown(self, a, b):
+        self.api.var_at_level(len(self.order) + 3 + a % 5)
+
+    def _missing(self, a):
+        k = max(self.b._succ) + 7 + a % 50
+        return k if a % 2 else -k
+
+    def _bad_apply_unknown_node(self, a, b):
+        if self.kind == 'autoref':
+            raise ValueError('n/a')
+        self.b.apply(BIN_OPS[b % len(BIN_OPS)], self._u(a), self._missing(a))
+
+    def _bad_ite_unknown_node(self, a, b):
+        if self.kind == 'autoref':
+            raise ValueError('n/a')
+        args = [self._u(a), self._u(b), self._u(a + b)]
+        args[b % 3] = self._missing(a)
+        self.b.ite(*args)
+
+    def _bad_add_expr_unknown_ref(self, a, b):
+        x = self.decl(a) or 'TRUE'
+        self.api.add_expr(f'{x} /\\ @{self._missing(a)}')
+
+    def _bad_to_expr_unknown_node(self, a, b):
+        if self.kind == 'autoref':
+            raise ValueError('n/a')
+        self.b.to_expr(self._missing(a))
+
+    def _bad_count_unknown(self, a, b):
+        if self.kind == 'autoref':
+            raise ValueError('n/a')
+        self.b.count(self._missing(a))
+
+    def _bad_let_unknown_node(self, a, b):
+        if self.kind == 'autoref':
+            raise ValueError('n/a')
+        x = self.decl(a)
+        if x is None:
+            raise ValueError('no variable')
+        self.b.let({x: True}, self._missing(b))
+
+    def _bad_quantify_unknown_node(self, a, b):
+        if self.kind == 'autoref':
+            raise ValueError('n/a')
+        x = self.decl(a)
+        if x is None:
+            raise ValueError('no variable')
+        # documented to validate lazily: may succeed or raise
+        self.b.quantify(self._missing(b), {x})
+
+    def _bad_foreign_function(self, a, b):
+        if self.kind != 'autoref':
+            raise ValueError('n/a')
+        other = self._ar.BDD()
+        other.declare('a', 'b')
+        f = other.add_expr('a /\\ b')
+        k = b % 4
+        if k == 0:
+            self.A.apply('and', self._u(a), f)
+        elif k == 1:
+            self.A.ite(f, self._u(a), self._u(b))
+        elif k == 2:
+            self._u(a) & f
+        else:
+            self.A.quantify(f, {'a'})
+
+    def _bad_unknown_operator(self, a, b):
+        self.api.apply(['nand', '<=', '=', 'AND', '', '\\X'][a % 6],
+                       self._u(a), self._u(b))
+
+    def _bad_arity_unary_extra(self, a, b):
+        self.api.apply(UN_OPS[a % 3], self._u(a), self._u(b))
+
+    def _bad_arity_binary_missing(self, a, b):
+        self.api.apply(BIN_OPS[a % len(BIN_OPS)], self._u(b))
+
+    def _bad_arity_binary_extra(self, a, b):
+        self.api.apply(BIN_OPS[a % len(BIN_OPS)], self._u(a), self._u(b),
+                       self._u(a + 1))
+
+    def _bad_arity_ternary_missing(self, a, b):
+        self.api.apply('ite', self._u(a), self._u(b))
+
+    def _bad_syntax_error(self, a, b):
+        """A valid formula with one token deleted / duplicated / replaced
+        at position b (every position is reachable)."""
+        x = self.decl(a) or 'TRUE'
+        y = self.decl(a + 1) or 'FALSE'
+        u = self.node(self._u(a))
+        toks = ['(', x, '/\\', '~', y, ')', '\\/', 'ite', '(', x, ',',
+                f'@{u}', ',', 'FALSE', ')', '=>', '\\E', x, ':', y, '#', x]
+        pos = b % len(toks)
+        mode = (a // 3) % 4
+        if mode == 0:
+            del toks[pos]
+        elif mode == 1:
+            toks.insert(pos, toks[pos])
+        elif mode == 2:
+            toks[pos] = [')', '(', '$', ',', ':', '/\\', '~', '@'][a % 8]
+        else:
+            toks = toks[:pos]
+        r = self.api.add_expr(' '.join(toks))
+        # still a formula: nothing to compare (result is left as garbage)
+
+    def _bad_add_var_conflict(self, a, b):
+        n = len(self.order)
+        if n < 2:
+            raise ValueError('n/a')
+        x = self.order[a % n]
+        self.api.add_var(x, (self.order.index(x) + 1) % n)
+
+    def _bad_reorder_partial_order(self, a, b):
+        if len(self.order) < 2:
+            raise ValueError('n/a')
+        order = {x: l for l, x in enumerate(self.order[:-1])}
+        self._reorder_call(order)
+
+    def _bad_reorder_unknown_name(self, a, b):
+        n = len(self.order)
+        if n < 2:
+            raise ValueError('n/a')
+        names = list(reversed(self.order))
+        names[a % n] = 'zz_undeclared'
+        self._reorder_call({x: l for l, x in enumerate(names)})
+
+    def _bad_constructor_bad_levels(self, a, b):
+        self._bddmod.BDD({'a': 0, 'b': 2 + a % 3})
+
+    def _bad_undeclare_used(self, a, b):
+        full = {i for i, _, _ in self.b._succ.values()}
+        used = [x for l, x in enumerate(self.order) if l in full]
+        if not used:
+            raise ValueError('n/a')
+        self.b.undeclare_vars(used[a % len(used)])
+
+    def _bad_undeclare_unknown(self, a, b):
+        self.b.undeclare_vars('zz_undeclared')
+
+    def _bad_count_too_few(self, a, b):
+        u, tu = self.pick(a)
+        k = len(tt.support(tu, self.n))
+        if k == 0:
+            raise ValueError('n/a')
+        self.api.count(u, b % k)
+
+    def _bad_find_or_add_bad_level(self, a, b):
+        lvl = [-1, len(self.order), len(self.order) + 2][a % 3]
+        self.b.find_or_add(lvl, -1, 1)
+
+    def _bad_find_or_add_bad_child(self, a, b):
+        if not self.order:
+            raise ValueError('n/a')
+        if b % 2:
+            self.b.find_or_add(0, self._missing(a), 1)
+        else:
+            self.b.find_or_add(0, -1, abs(self._missing(a)))
+
+    def _bad_swap_non_adjacent(self, a, b):
+        n = len(self.order)
+        if n < 3:
+            raise ValueError('n/a')
+        self.b.swap(a % (n - 2), a % (n - 2) + 2)
+
+    def _bad_swap_same(self, a, b):
+        if not self.order:
+            raise ValueError('n/a')
+        self.b.swap(a % len(self.order), a % len(self.order))
+
+    def _bad_swap_unknown(self, a, b):
+        k = a % 3
+        if k == 0:
+            self.b.swap('zz_undeclared', self.decl(b) or 'a')
+        elif k == 1:
+            self.b.swap(-1, 0)
+        else:
+            self.b.swap(len(self.order) - 1, len(self.order))
+
+    def _bad_load_missing(self, a, b):
+        import os
+        self.api.load(os.path.join(os.getcwd(),
+                                   'no_such_file' + ['.p', '.json'][a % 2]))
+
+    def _bad_load_wrong_extension(self, a, b):
+        self.api.load('something.txt')
+
+    def _bad_dump_wrong_extension(self, a, b):
+        roots = [self._u(a)]
+        self.api.dump('something.xyz', roots=roots)
+
+    def _dump_some(self, fname, a):
+        roots = [e.ref for e in self.held[:3]] or [self.const(True)]
+        self.api.dump(fname, roots=roots)
+
+    def _bad_load_corrupt_pickle(self, a, b):
+        import os
+        p = os.path.join(os.getcwd(), 'corrupt.p')
+        self._dump_some(p, a)
+        data = open(p, 'rb').read()
+        cut = 1 + b % max(1, len(data) - 1)
+        if a % 2:
+            data = data[:cut]
+        else:
+            data = data[:cut] + bytes([(data[cut] + 1 + a) % 256]) + \
+                data[cut + 1:]
+        open(p, 'wb').write(data)
+        try:
+            self.api.load(p)
+        finally:
+            os.remove(p)
+
+    def _bad_load_corrupt_json(self, a, b):
+        import os
+        if self.kind != 'autoref':
+            raise ValueError('n/a')
+        p = os.path.join(os.getcwd(), 'corrupt.json')
+        self._dump_some(p, a)
+        lines = open(p).read().split('\n')
+        k = b % len(lines)
+        mode = a % 4
+        if mode == 0:
+            lines[k] = '"9999": [7, "X", 3'
+        elif mode == 1:
+            lines = lines[:k]
+        elif mode == 2:
+            lines[k] = ',\n"77": [0, "88", "89"]'
+        else:
+            lines[k] = lines[k].replace('[', '[99, ', 1)
+        open(p, 'w').write('\n'.join(lines))
+        try:
+            self.api.load(p)
+        finally:
+            os.remove(p)
+            if os.path.isdir('__shelve__'):
+                import shutil
+                shutil.rmtree('__shelve__')
+
+    def _bad_image_precondition(self, a, b):
+        n = len(self.order)
+        if n < 2:
+            raise ValueError('n/a')
+        x, y = self.order[a % n], self.order[(a + 1) % n]
+        u = self.api.var(y)
+        # rename target y is in the support and not quantified
+        if self.kind == 'autoref':
+            self._ar.image(u, u, {x: y}, set())
+        else:
+            self._bddmod.image(u, u, {x: y}, set(), self.b)
+
+    def _bad_let_mixed_values(self, a, b):
+        x, y = self.decl(a), self.decl(a + 1)
+        if x is None or x == y:
+            raise ValueError('n/a')
+        # documented: homogeneous values; a mixed dict is rejected or
+        # misread, never allowed to corrupt the manager
+        self.api.let({x: True, y: 'zz_undeclared'}, self._u(b))
+
+    def _bad_add_expr_deep_failure(self, a, b):
+        """Fails after sub-formulas have already created nodes."""
+        xs = self.order or ['TRUE']
+        parts = [f'({xs[i % len(xs)]} # {xs[(i + 1) % len(xs)]})'
+                 for i in range(2 + a % 3)]
+        s = ' /\\ '.join(parts) + ' /\\ zz_undeclared'
+        self.api.add_expr(s)
+
+    def _bad_cube_bad_after_progress(self, a, b):
+        d = {x: bool((a >> l) & 1) for l, x in enumerate(self.order)}
+        d['zz_undeclared'] = True
+        self.api.cube(d)
+
+    def _bad_let_compose_late_failure(self, a, b):
+        """Vector composition in which a later key is undeclared."""
+        if len(self.order) < 1:
+            raise ValueError('n/a')
+        d = {self.order[0]: self._u(a), 'zz_undeclared': self._u(b)}
+        self.api.let(d, self._u(a + b))
+
     # shutdown (dd.autoref, C08) ---------------------------------------
     def shutdown(self, perm_seed=0):
         """Drop every handle in a generated order, then run the
